@@ -750,7 +750,7 @@ impl DrawExecutor {
                 p.push(points[i + x * 2 + 1] + y0);
             }
             self.draw_polyline(&p);
-            i += num_points;
+            i += num_points * 2;
         }
         self.line_type = old_type;
         self.fill_color = old_color;
